@@ -9,6 +9,10 @@ package bytecode
 //   op = P  PopWithoutUnwrapping           -> P panic | under | ok <kind of value> <sp>
 //        D  dropToMarkerByteCode, arg = nil | x (a non-marker operand) | m<label>   -> D panic | throw | ok <sp>
 //        S  stackCheckByteCode, arg = count -> S panic | ok | err
+//   O <mod|div> <kind1> <v1> <kind2> <v2> <divzero 0|1>  -> O <panic|divzero|typeerr|ok> <kind after data.Normalize | ->
+//        the two operands pushed on a fresh context, then moduloByteCode / divideByteCode
+//   A <isbyte 0|1> <n> <first> <last> -> A <panic|err|ok:len:first element> <same for GetSlice>
+//        GetSliceAsArray / GetSlice on an array holding 0..n-1
 // The stack slice holds exactly the listed values (len(c.stack) = number listed).
 
 import (
@@ -20,6 +24,7 @@ import (
 	"testing"
 
 	"github.com/tucats/ego/internal/errors"
+	"github.com/tucats/ego/internal/language/data"
 	"github.com/tucats/ego/internal/language/symbols"
 )
 
@@ -60,6 +65,194 @@ func verifC07Kind(v any) string {
 	return "?"
 }
 
+
+func verifC07Num(kind string, v int64) any {
+	switch kind {
+	case "byte":
+		return byte(v)
+	case "int8":
+		return int8(v)
+	case "int16":
+		return int16(v)
+	case "uint16":
+		return uint16(v)
+	case "int32":
+		return int32(v)
+	case "uint32":
+		return uint32(v)
+	case "int":
+		return int(v)
+	case "uint":
+		return uint(v)
+	case "int64":
+		return v
+	case "uint64":
+		return uint64(v)
+	case "float32":
+		return float32(v)
+	case "float64":
+		return float64(v)
+	case "complex64":
+		return complex(float32(v), 0)
+	case "complex128":
+		return complex(float64(v), 0)
+	case "bool":
+		return v != 0
+	}
+
+	return strconv.FormatInt(v, 10)
+}
+
+func verifC07KindName(v any) string {
+	switch v.(type) {
+	case byte:
+		return "byte"
+	case int8:
+		return "int8"
+	case int16:
+		return "int16"
+	case uint16:
+		return "uint16"
+	case int32:
+		return "int32"
+	case uint32:
+		return "uint32"
+	case int:
+		return "int"
+	case uint:
+		return "uint"
+	case int64:
+		return "int64"
+	case uint64:
+		return "uint64"
+	case float32:
+		return "float32"
+	case float64:
+		return "float64"
+	case complex64:
+		return "complex64"
+	case complex128:
+		return "complex128"
+	}
+
+	return "other"
+}
+
+func verifC07ValueOp(f []string) (s string) {
+	defer func() {
+		if r := recover(); r != nil {
+			s = f[0] + " panic -"
+		}
+	}()
+
+	switch f[0] {
+	case "O":
+		a, _ := strconv.ParseInt(f[3], 10, 64)
+		b, _ := strconv.ParseInt(f[5], 10, 64)
+		v1, v2 := verifC07Num(f[2], a), verifC07Num(f[4], b)
+		kind := "-"
+
+		if n1, _, err := data.Normalize(v1, false, v2, false, false); err == nil {
+			kind = verifC07KindName(n1)
+		}
+
+		c := NewContext(symbols.NewSymbolTable("verif"), New("verif"))
+		c.divZero = len(f) > 6 && f[6] == "1"
+		_ = c.push(v1)
+		_ = c.push(v2)
+
+		var err error
+		if f[1] == "mod" {
+			err = moduloByteCode(c, nil)
+		} else {
+			err = divideByteCode(c, nil)
+		}
+
+		switch {
+		case err == nil:
+			return "O ok " + kind
+		case errors.Equals(err, errors.ErrDivisionByZero):
+			return "O divzero " + kind
+		default:
+			return "O typeerr " + kind
+		}
+
+	case "A":
+		n, _ := strconv.Atoi(f[2])
+		first, _ := strconv.Atoi(f[3])
+		last, _ := strconv.Atoi(f[4])
+
+		var arr *data.Array
+
+		if f[1] == "1" {
+			b := make([]byte, n)
+			for i := range b {
+				b[i] = byte(i)
+			}
+
+			arr = data.NewArrayFromBytes(b...)
+		} else {
+			v := make([]any, n)
+			for i := range v {
+				v[i] = i
+			}
+
+			arr = data.NewArrayFromInterfaces(data.IntType, v...)
+		}
+
+		one := func(g func() (int, any, error)) (r string) {
+			defer func() {
+				if p := recover(); p != nil {
+					r = "panic"
+				}
+			}()
+
+			ln, first, err := g()
+			if err != nil {
+				return "err"
+			}
+
+			fv := int64(-1)
+			if first != nil {
+				fv, _ = data.Int64(first)
+			}
+
+			return fmt.Sprintf("ok:%d:%d", ln, fv)
+		}
+
+		r1 := one(func() (int, any, error) {
+			x, err := arr.GetSliceAsArray(first, last)
+			if err != nil || x == nil {
+				return 0, nil, err
+			}
+
+			var fv any
+			if x.Len() > 0 {
+				fv, _ = x.Get(0)
+			}
+
+			return x.Len(), fv, nil
+		})
+		r2 := one(func() (int, any, error) {
+			x, err := arr.GetSlice(first, last)
+			if err != nil {
+				return 0, nil, err
+			}
+
+			var fv any
+			if len(x) > 0 {
+				fv = x[0]
+			}
+
+			return len(x), fv, nil
+		})
+
+		return "A " + r1 + " " + r2
+	}
+
+	return f[0] + " ?"
+}
+
 func TestVerifC07BC(t *testing.T) {
 	in, err := os.Open(os.Getenv("VERIF_IN"))
 	if err != nil {
@@ -82,6 +275,12 @@ func TestVerifC07BC(t *testing.T) {
 	for sc.Scan() {
 		f := strings.Fields(sc.Text())
 		if len(f) < 5 {
+			continue
+		}
+
+		if f[0] == "O" || f[0] == "A" {
+			fmt.Fprintln(w, verifC07ValueOp(f))
+
 			continue
 		}
 
